@@ -219,8 +219,13 @@ Proof.
   induction ops as [|o r IH]; intros s m Hi HR; [reflexivity|].
   destruct (sim_step s m o Hi HR) as [m' [Hs [HR' Hd]]].
   pose proof (IH _ _ (inv_step s o Hi) HR') as Hrest.
-  cbn [hrun map combine mon_run obs_of]. cbn [obs_of] in Hrest. rewrite Hs.
-  unfold obs_of in Hrest. rewrite Hrest. rewrite andb_true_r.
+  change (hrun s (o :: r)) with (hstep s o :: hrun (hstep s o) r).
+  change (mon_run m (combine (o :: r) (map obs_of (hstep s o :: hrun (hstep s o) r))))
+    with (match mon_step m o (avail (hstep s o)) (checkers (hstep s o)) with
+          | Some m' => (negb (drained m') || (checkers (hstep s o) =? 0)) &&
+                       mon_run m' (combine r (map obs_of (hrun (hstep s o) r)))
+          | None => false end).
+  rewrite Hs, Hrest, andb_true_r.
   destruct (drained m') eqn:Ed; [|reflexivity]. simpl. rewrite (Hd eq_refl). reflexivity.
 Qed.
 Lemma R_init : forall ft st, R (h_init ft st) (mon_init ft st).
@@ -229,7 +234,7 @@ Proof. intros. unfold R, h_init, mon_init; simpl. repeat split; try reflexivity;
 Lemma dec_obs_enc : forall l, all_some (map dec_obs (map enc_h l)) = Some (map obs_of l).
 Proof.
   induction l as [|s l IH]; [reflexivity|]. simpl. rewrite IH.
-  unfold obs_of. destruct (avail s); reflexivity.
+  unfold obs_of. destruct (avail s), (restarted s); reflexivity.
 Qed.
 Lemma hrun_length : forall ops s, length (hrun s ops) = length ops.
 Proof. induction ops as [|o r IH]; intros s; simpl; [reflexivity|]. rewrite IH. reflexivity. Qed.
